@@ -534,6 +534,18 @@ def run(ctx):
     ctx.notes['x_grid'] = xg_info
     for m_ in xg_mm[:5]:
         print('EXTRA-MISMATCH (XGrid, no listed property): ' + m_[:400], file=__import__('sys').stderr)
+    # FilmTrack.tla: the TRAC notation (growth; the track algebra above judges C19's statement, this binds the whole function)
+    from .. import filmtrack
+    ft_mm = []
+    try:
+        ft_info = filmtrack.run(ctx, ft_mm)
+    except Exception as e:
+        ft_info = dict(error='%s: %s' % (type(e).__name__, str(e)[:300]))
+    ft_info['mismatches'] = ft_mm[:10]
+    ft_info['mismatch_count'] = len(ft_mm)
+    ctx.notes['film_track'] = ft_info
+    for m_ in ft_mm[:5]:
+        print('EXTRA-MISMATCH (FilmTrack, no listed property): ' + m_[:400], file=__import__('sys').stderr)
     ctx.rule = ('lattice: one case per (track, scale, value); plots: one case per generated plot (non-trivial: some output not entirely inside its '
                 'scale); one trace per plotted curve')
     ctx.assumptions += ['LIS input with single-sample channels in code 68, X in FEET, .1IN or M with the plot range asked in the same or another unit; positions quantised to 1e-4 in (tolerance 8 units), x to 0.01 ft',
